@@ -46,6 +46,10 @@ type C15Scenario struct {
 	LongAll bool        `json:"long_all,omitempty"`
 	Long64  bool        `json:"long64,omitempty"`
 	Command bool        `json:"command,omitempty"` // encode mode: remote-shell handshake instead of daemon
+	// Sparse: decode modes: additional sparse source files of these sizes
+	// (2^31-1, 2^31, 2^32-1, 2^32, 2^40 ...) so that the real sender has to
+	// encode 64-bit lengths; they are listed but never requested.
+	Sparse []int64 `json:"sparse,omitempty"`
 	Tr      Transport   `json:"tr"`
 }
 
@@ -167,6 +171,20 @@ func (c15) Generate(seed uint64, tier string, index int) any {
 				e.Type, e.Perm = "fifo", 0o644 // non-UTF-8 directory names: recorded C01 finding
 			}
 		}
+		if g.R.Intn(3) == 0 {
+			big := []int64{1<<31 - 1, 1 << 31, 1<<31 + 1, 1<<32 - 1, 1 << 32, 1<<32 + 1, 3 << 30, 1 << 40, 1<<31 + 12345}
+			for i := 0; i < 1+g.R.Intn(3); i++ {
+				sc.Sparse = append(sc.Sparse, big[g.R.Intn(len(big))])
+			}
+			// no -c: the sender would checksum gigabytes of zeros
+			var o2 []string
+			for _, o := range sc.Opts {
+				if o != "-c" {
+					o2 = append(o2, o)
+				}
+			}
+			sc.Opts = o2
+		}
 		sc.Tr = g.TransportFor(12, 256<<10)
 	}
 	return sc
@@ -226,6 +244,22 @@ func c15Decode(t *testing.T, sc *C15Scenario, job *Job, res *Result) {
 		return
 	}
 	os.MkdirAll(lay.Dst, 0755)
+	for i, sz := range sc.Sparse {
+		if sz < 0 || sz > 1<<42 || model.ParseOpts(sc.Opts).Checksum {
+			res.Invalid = "sparse size / -c"
+			return
+		}
+		p := filepath.Join(lay.Src, fmt.Sprintf("sparse_%d", i))
+		f, err := os.Create(p)
+		if err == nil {
+			err = f.Truncate(sz)
+			f.Close()
+		}
+		if err != nil {
+			res.Inconclusive = "cannot create sparse file: " + err.Error()
+			return
+		}
+	}
 	snap, err := fstree.Snapshot(lay.Src)
 	if err != nil {
 		res.Inconclusive = err.Error()
@@ -239,7 +273,12 @@ func c15Decode(t *testing.T, sc *C15Scenario, job *Job, res *Result) {
 	}
 	o := model.ParseOpts(sc.Opts)
 	lo := listOptsFor(o)
-	plan := func(idx int, e *refproto.Entry, seed int32) (bool, []byte, int, int) { return true, nil, 0, 0 }
+	plan := func(idx int, e *refproto.Entry, seed int32) (bool, []byte, int, int) {
+		if e.Size > 64<<20 || e.Size < 0 {
+			return false, nil, 0, 0 // sparse giants are listed, not transferred
+		}
+		return true, nil, 0, 0
+	}
 	var pr *refproto.PullResult
 	slog := &lockedBuf{max: 1 << 18}
 	rr := &RefRun{Tr: sc.Tr}
@@ -421,6 +460,7 @@ func c15Decode(t *testing.T, sc *C15Scenario, job *Job, res *Result) {
 		}
 	}
 	res.Probe("entries_decoded", len(got))
+	res.Probe("sparse_files_over_2g", len(sc.Sparse))
 	res.Probe("files_requested_by_index", nreq)
 	res.Probe("mode_"+sc.Mode, 1)
 	res.NonTrivial = len(got) > 2
